@@ -1440,7 +1440,24 @@ class BV(Sym):
             return self, BV(o, self.dtype), self.dtype
         return None
 
-    def _arith(self, o, f, swap=False):
+    def _with_int64_array_elem(self, o, opname, swap=False):
+        """sized scalar <op> element of an int64 array: NumPy promotion; float64 for uint64 with int64"""
+        dt = np.result_type(self.dtype, np.int64)
+        if dt.kind != 'f':
+            return None
+        from .fp import F64
+        me = self.as_Z().concretize()
+        other = o.concretize()
+        a, b = (float(other), float(me)) if swap else (float(me), float(other))
+        if opname == 'pow':
+            return F64.lift(a ** b)
+        return getattr(F64.lift(a), '__%s__' % opname)(F64.lift(b))
+
+    def _arith(self, o, f, swap=False, opname=None):
+        if isinstance(o, ZA) and opname is not None:
+            r = self._with_int64_array_elem(o, opname, swap)
+            if r is not None:
+                return r
         if isinstance(o, (float, np.floating, R, Fraction)):
             # numpy: integer (op) float -> float64
             me = R.lift(self.as_Z())
@@ -1454,17 +1471,17 @@ class BV(Sym):
         return BV(f(a.term, b.term), dt)
 
     def __add__(self, o):
-        return self._arith(o, lambda a, b: a + b)
+        return self._arith(o, lambda a, b: a + b, opname='add')
     __radd__ = __add__
 
     def __sub__(self, o):
-        return self._arith(o, lambda a, b: a - b)
+        return self._arith(o, lambda a, b: a - b, opname='sub')
 
     def __rsub__(self, o):
         return self._arith(o, lambda a, b: a - b, swap=True)
 
     def __mul__(self, o):
-        return self._arith(o, lambda a, b: a * b)
+        return self._arith(o, lambda a, b: a * b, opname='mul')
     __rmul__ = __mul__
 
     def __and__(self, o):
@@ -1535,6 +1552,10 @@ class BV(Sym):
         return BV(z3.If(adj, r + b.term, r), dt)
 
     def __pow__(self, o):
+        if isinstance(o, ZA):
+            r = self._with_int64_array_elem(o, 'pow')
+            if r is not None:
+                return r
         c = self._coerce(o)
         if c is None:
             return NotImplemented
@@ -1616,6 +1637,64 @@ class BV(Sym):
     def __repr__(self):
         s = str(z3.simplify(self.term))
         return 'BV%d%s<%s>' % (self.bits, 'i' if self.signed else 'u', s if len(s) < 50 else s[:47] + '...')
+
+
+class ZA(Z):
+    """an element of an array numpy would have typed int64 (numpy.array over Python ints).  It is an
+    exact integer like Z; the one difference is NumPy's promotion rule for int64 <op> uint64 scalar,
+    which is float64 - the result is then a *binary64* value (pathsym.fp.F64), with the rounding the
+    real library performs, instead of an exact integer."""
+    __slots__ = ()
+
+    def _f64(self):
+        from .fp import F64
+        return F64.lift(float(self.concretize()))
+
+    @staticmethod
+    def _is_u8(o):
+        return isinstance(o, np.unsignedinteger) and o.dtype.itemsize == 8
+
+    def _bin(self, o, fc, fs):
+        if isinstance(o, BV):
+            return NotImplemented        # the sized scalar's reflected method applies NumPy promotion
+        return Z._bin(self, o, fc, fs)
+
+    def _fbin(self, o, name, swap=False):
+        from .fp import F64
+        a, b = self._f64(), F64.lift(float(o))
+        if swap:
+            a, b = b, a
+        return getattr(a, name)(b)
+
+    def __add__(self, o):
+        return self._fbin(o, '__add__') if self._is_u8(o) else Z.__add__(self, o)
+
+    def __radd__(self, o):
+        return self._fbin(o, '__add__', True) if self._is_u8(o) else Z.__radd__(self, o)
+
+    def __sub__(self, o):
+        return self._fbin(o, '__sub__') if self._is_u8(o) else Z.__sub__(self, o)
+
+    def __rsub__(self, o):
+        return self._fbin(o, '__sub__', True) if self._is_u8(o) else Z.__rsub__(self, o)
+
+    def __mul__(self, o):
+        return self._fbin(o, '__mul__') if self._is_u8(o) else Z.__mul__(self, o)
+
+    def __rmul__(self, o):
+        return self._fbin(o, '__mul__', True) if self._is_u8(o) else Z.__rmul__(self, o)
+
+    def __pow__(self, o):
+        if self._is_u8(o):
+            from .fp import F64
+            return F64.lift(float(self.concretize()) ** float(o))
+        return Z.__pow__(self, o)
+
+    def __rpow__(self, base):
+        if self._is_u8(base):
+            from .fp import F64
+            return F64.lift(float(base) ** float(self.concretize()))
+        return Z.__rpow__(self, base)
 
 
 def is_sym(x):
